@@ -60,7 +60,7 @@ impl BricksDomain {
     ///    min = max = 1. e.g. B = \[{a,b}\]^{2,2} => B_new = \[{aa, ab, ba, bb}\]^{1,1}.
     /// 4. **merge** two successive bricks in which the set of strings is the same. e.g. B1 = \[S\]^{m1, M1}
     ///    and B2 = \[S\]^{m2, M2} => B_new = \[S\]^{m1+m2, M1+M2}
-    /// 5. **break** a single brick with min >= 1 and max != min into two simpler bricks where B = \[S\]^{min,max} =>
+    /// 5. **break** a single brick with min > 1 and max != min into two simpler bricks where B = \[S\]^{min,max} =>
     ///    B1 = \[S^min\]^{1,1}, B2 = \[S\]^{0, max-min}.
     ///    e.g. B = \[{a}\]^{2,5} => B1 = \[{aa}\]^{1,1}, B2 = \[{a}\]^{0,3}
     ///
@@ -100,7 +100,9 @@ impl BricksDomain {
 
                 // --Step 5-- Check whether min >= 1 and max > min.
                 // If so, break the brick into simpler bricks.
-                if current_brick.get_min() >= 1 && current_brick.get_max() > current_brick.get_min()
+                // For min == 1 the first of the two new bricks would have the same content as the second one
+                // and step 4 would merge them back into the original brick (endlessly), so such bricks are kept.
+                if current_brick.get_min() > 1 && current_brick.get_max() > current_brick.get_min()
                 {
                     let (new_brick1, new_brick2) =
                         current_brick.break_single_brick_into_simpler_bricks();
